@@ -565,6 +565,11 @@ func (u *Unmarshaler) processFieldNotFromString(fieldType reflect.Type, value re
 			return newTypeMismatchError(fullName)
 		}
 
+		// 时长字段同样要遵守 options= 约束
+		if err := validateValueInOptions(dur, opts.options()); err != nil {
+			return err
+		}
+
 		return fillDurationValue(fieldType.Kind(), value, dur)
 	default:
 		return u.processFieldPrimitive(fieldType, value, mapValue, opts, fullName)
